@@ -143,6 +143,21 @@ func (n *nbRun) callback(rec *cbRec) func(res *http.Response, conn net.Conn, err
 	}
 }
 
+// originHandler serves one of two origins of a case: a request that names the
+// other origin was sent over a connection to the wrong server.
+type originHandler struct {
+	e  *env
+	me string
+}
+
+func (o *originHandler) ServeHTTP(w http.ResponseWriter, r *http.Request) {
+	if want := r.Header.Get("X-Origin"); want != "" && want != o.me {
+		o.e.violate("c10:nbclient:request-sent-to-another-origin", fmt.Sprintf("a request for origin %s (URL host %s) arrived at origin %s: the client used a connection to another host:port; X-Id %s\n%s",
+			want, r.Host, o.me, r.Header.Get("X-Id"), o.e.log.Slice(r.RemoteAddr, 20)))
+	}
+	o.e.ServeHTTP(w, r)
+}
+
 func (n *nbRun) request(p *reqPlan, base string) *http.Request {
 	var body io.Reader
 	if p.Method == "POST" {
@@ -184,8 +199,9 @@ func (e *env) runNbClient() {
 	rng := rand.New(rand.NewSource(c.Seed))
 	var addr string
 	var stopServer func()
+	hA := &originHandler{e: e, me: "A"}
 	if c.NbTarget == "nbhttp" {
-		eng := nbhttp.NewEngine(c.Cell.Config(e))
+		eng := nbhttp.NewEngine(c.Cell.Config(hA))
 		if err := eng.Start(); err != nil {
 			e.r.Inconclusive(fmt.Sprintf("case %d: start: %v", c.Index, err))
 			return
@@ -213,10 +229,28 @@ func (e *env) runNbClient() {
 			}
 			ln = stdtls.NewListener(ln, tc)
 		}
-		srv := &http.Server{Handler: e, ErrorLog: log.New(io.Discard, "", 0)}
+		srv := &http.Server{Handler: hA, ErrorLog: log.New(io.Discard, "", 0)}
 		go func() { _ = srv.Serve(ln) }()
 		addr = ln.Addr().String()
 		stopServer = func() { _ = srv.Close() }
+	}
+	// a second origin on the same host (another port) in half of the cases: one Client, two origins -
+	// a request must reach the origin its URL names (the connection pool is per host:port)
+	addrB := ""
+	if c.Seed%2 == 0 {
+		if ln, err := net.Listen("tcp", "127.0.0.1:0"); err == nil {
+			if c.Cell.TLS {
+				cp, kp := httpx.Cert()
+				if cert, err := stdtls.X509KeyPair(cp, kp); err == nil {
+					ln = stdtls.NewListener(ln, &stdtls.Config{Certificates: []stdtls.Certificate{cert}, MaxVersion: stdtls.VersionTLS12})
+				}
+			}
+			srvB := &http.Server{Handler: &originHandler{e: e, me: "B"}, ErrorLog: log.New(io.Discard, "", 0)}
+			go func() { _ = srvB.Serve(ln) }()
+			addrB = ln.Addr().String()
+			stopA := stopServer
+			stopServer = func() { stopA(); _ = srvB.Close() }
+		}
 	}
 	// the client side: its own engine in the cell's epoll mode
 	ccfg := nbhttp.Config{NPoller: 2}
@@ -236,6 +270,10 @@ func (e *env) runNbClient() {
 	base := "http://" + addr
 	if c.Cell.TLS {
 		base = "https://" + addr
+	}
+	baseB := ""
+	if addrB != "" {
+		baseB = base[:len(base)-len(addr)] + addrB
 	}
 	timeout := time.Duration(c.NbTimeout) * time.Second
 	tlsc := &lltls.Config{InsecureSkipVerify: true}
@@ -279,7 +317,14 @@ func (e *env) runNbClient() {
 				done := make(chan struct{})
 				cb := n.callback(rec)
 				e.log.Add("client.do", conn, int64(p.ID), p.String())
-				cli.Do(n.request(p, base), func(res *http.Response, conn net.Conn, err error) {
+				rq := n.request(p, base)
+				rq.Header.Set("X-Origin", "A")
+				if baseB != "" && grng.Intn(2) == 0 {
+					rq = n.request(p, baseB)
+					rq.Header.Set("X-Origin", "B")
+					e.r.Count("nbclient_requests_to_the_second_origin", 1)
+				}
+				cli.Do(rq, func(res *http.Response, conn net.Conn, err error) {
 					cb(res, conn, err)
 					select {
 					case <-done:
